@@ -7,6 +7,7 @@ import typing
 
 from .. import vrt
 from ..chx.api import P, concrete, harness, ladder, shard
+from .. import scen as scen  # noqa: E402
 from .common import CONN_TYPES, Setup
 
 STUBS = (
@@ -150,3 +151,57 @@ def _cancel(c: int, one_shot: bool, drop: bool) -> None:
     su.probe_capacity(2)
     counter.check()
     su.closed_pool_oracle()
+
+
+
+@harness(
+    "C06", "alpn_mismatch",
+    quick=[{"flavour": fl} for fl in ("sync", "async")],
+    example=dict(retries=1, sel=1, n=2),
+    require=("mismatch",),
+    timeout={"quick": 120, "thorough": 300},
+    symbolic="retries in 0..2; what the TLS server selects through ALPN (nothing, http/1.1, h2); 1-3 consecutive requests",
+    bounds="an HTTP/2-only pool (http1=False, http2=True, max_connections=1) against an https origin that only speaks HTTP/1.1",
+    outside="other connection types (C05.fault / C05.cancel)",
+    stubs=("HTTP/1.1 server model whose TLS layer answers the ALPN offer as scripted",),
+    also=("C04", "C05"),
+)
+def alpn_mismatch(retries: int, sel: int, n: int) -> None:
+    """
+    pre: 0 <= retries <= 2 and 0 <= sel <= 2 and 1 <= n <= 3
+    post: _
+    """
+    r, s_i, k = ladder(retries, 0, 2), ladder(sel, 0, 2), ladder(n, 1, 3)
+    with concrete(r, s_i, k):
+        from ..vnet.core import Net
+        from ..vnet.servers import H1Server
+
+        selected = (None, "http/1.1", "h2")[s_i]
+
+        class Srv(H1Server):
+            def on_tls(self, server_hostname: typing.Any, offered: typing.Any) -> typing.Any:
+                return selected
+
+        is_async = shard("flavour", "sync") == "async"
+        vrt.new_runtime(clock=20)
+        net = Net(lambda net, sock: Srv())
+        max_open = [0]
+        net.on_event = lambda e: max_open.__setitem__(0, max(max_open[0], len(net.open_socks())))
+        pool = scen.make_pool(is_async, net, http1=False, http2=True, max_connections=1, retries=r)
+        api = scen.Api(is_async)
+        outs = []
+        for i in range(k):
+            o = api.request(pool, "GET", f"https://example.com/m{i}", extensions={"timeout": {"pool": 0, "read": 5, "connect": 5, "write": 5}})
+            outs.append(o.kind())
+            P.check(not o.ok and o.documented(), "request-against-a-non-h2-server-fails-with-a-documented-error",
+                    lambda: f"alpn:{selected}:{o.kind()}", prop="C05")
+            # between requests nothing is in flight: every open socket belongs to a pooled, live connection
+            live = len([c for c in pool.connections if not c.is_closed()])
+            P.check(len(net.open_socks()) <= live, "open-streams-owned", lambda: f"alpn:{selected}:leak:{len(net.open_socks())}>{live}", prop="C06")
+            P.check(not scen.stuck_connections(pool) and scen.n_requests(pool) == 0, "no-stuck-connection",
+                    lambda: f"alpn:{selected}:stuck:{scen.stuck_connections(pool)}", prop="C05")
+        P.note(selected=selected, retries=r, outcomes=outs)
+        P.cover("mismatch")
+        P.check(max_open[0] <= 1, "open-streams<=max_connections(apart from evicted ones being closed)", lambda: f"alpn:{selected}:streams:{max_open[0]}>1", prop="C04")
+        c = api.close(pool)
+        P.check(c.ok and not net.open_socks(), "all-streams-closed-after-pool-close", lambda: f"alpn:{selected}:leak-after-close:{len(net.open_socks())}", prop="C06")
